@@ -37,6 +37,9 @@ SERVER_KINDS = {
     "refused5": (EHLO_TLS, step(b"501 syntax\r\n")),
     "garbage": (EHLO_TLS, step(b"220 go\r\n", True)),
     "injected": (EHLO_TLS, step(b"220 go\r\n250-injected\r\n250 AUTH LOGIN\r\n")),
+    # STARTTLS offered after an empty line / after a line of blanks of the EHLO reply
+    "okblank": (b"250-srv\r\n250-\r\n250-STARTTLS\r\n250 AUTH LOGIN PLAIN\r\n", step(b"220 go\r\n")),
+    "okblank2": (b"250-srv\r\n250-  \r\n250-X-A b\r\n250-STARTTLS\r\n250 AUTH LOGIN PLAIN\r\n", step(b"220 go\r\n")),
 }
 
 
@@ -67,7 +70,7 @@ def gen(tier, rng):
                 for kind in SERVER_KINDS:
                     if tier == "quick" and mode == "n" and (cert != "g" or flags != "1000"):
                         continue
-                    if tier == "quick" and kind in ("refused4", "refused5", "garbage", "notoffered") and cert != "g":
+                    if tier == "quick" and kind in ("refused4", "refused5", "garbage", "notoffered", "okblank", "okblank2") and cert != "g":
                         continue
                     for client in "sa":
                         cases.append(case(client, mode, cert, flags, i % 2 == 0, kind))
@@ -101,6 +104,11 @@ def gen(tier, rng):
                     for cred in ("", "user:pass@"):
                         url = f"{scheme}://{cred}{host}" + (f":{port}" if port != "-" else "") + (f"?tls={tlsp}" if tlsp != "-" else "")
                         cases.append(f"ctor\turl\t{hexs(url)}\t{scheme}\t{tlsp}\t{port}\t{hexs(host)}")
+                        if tlsp != "-":
+                            # the `tls` parameter among other query pairs, in any position
+                            for q in (f"?x=1&tls={tlsp}", f"?tls={tlsp}&x=1", f"?a=b&c=d&tls={tlsp}"):
+                                u2 = f"{scheme}://{cred}{host}" + (f":{port}" if port != "-" else "") + q
+                                cases.append(f"ctor\turl\t{hexs(u2)}\t{scheme}\t{tlsp}\t{port}\t{hexs(host)}")
     cases.append("ctor\tlocalhost")
     n = {"quick": 150, "search": 600, "thorough": 3000}[tier]
     for _ in range(n):
